@@ -36,6 +36,7 @@ def run_all_decoders(eng, ctx, data, label):
     obs = []
     for idx, (name, dec) in enumerate(table):
         w = {"data": data, "prev": idx, "via": "payload", "seconds": 5}
+        ctx.intend(w)
         if ctx.witness is None:
             ctx.witness = w
 
